@@ -1,17 +1,17 @@
 CONSTANTS
   K = 3
-  MaxSrc = 3
-  MaxOut = 3
+  MaxSrc = 0
+  MaxOut = 0
   MaxRuns = 1
   ScanSubsets = FALSE
   Tear = FALSE
   MaxSeeds = 0
   MaxSeedLen = 0
   WithTwins = FALSE
-  NBig = 0
-  KBig = 1
-  NBigMin = 1
-  NBigMax = 1
+  NBig = 1500
+  KBig = 7
+  NBigMin = 6
+  NBigMax = 14
 INIT GInit
 NEXT GNext
 POSTCONDITION Post
